@@ -18,7 +18,7 @@ func init() { core.Register(c13{}) }
 func (c13) ID() string    { return "C13" }
 func (c13) Level() string { return "exploration" }
 func (c13) Rule() string {
-	return "cases = generated op sequences (puts, deletes, batches with and without Sync, rotations, oversized values, explicit Sync, merges, Close/reopen) under each SyncStrategy x BytesPerSync {1,300,4096,1 MiB} x FileIOType; an online checker over the hooked write/sync event stream keeps, per data-directory file, written and durable offsets (durable advances only at a COMPLETED sync event) and attributes every write (with its padding bytes computed by the independent decoder) to the API call in flight; rules evaluated at every API return: Always -> every byte written by Put/Delete calls is durable; Threshold(B) -> non-padding bytes written by Put/Delete calls and not yet durable < B; Sync batch -> everything written during the call incl. the sealing record is durable; Sync() and Close() -> every data-directory file has written == durable; at the creation of data file n+1 every other data file is fully durable. Non-trivial: case with >=1 rotation, >=1 Sync batch or explicit Sync, and >=40 rule evaluations; distinct = hash of (config, op list)"
+	return "cases = generated op sequences (puts, deletes, batches with and without Sync, rotations, oversized values, explicit Sync, merges, Close/reopen) under each SyncStrategy x BytesPerSync {1,300,4096,1 MiB} x FileIOType; an online checker over the hooked write/sync event stream keeps, per data-directory file, written and durable offsets (durable advances only at a COMPLETED sync event) and attributes every write (with its padding bytes computed by the independent decoder) to the API call in flight; rules evaluated at every API return: Always -> every byte written by Put/Delete calls is durable; Threshold(B) -> non-padding bytes written by Put/Delete calls and not yet durable < B; Sync batch -> everything written during the call incl. the sealing record is durable; Sync() and Close() -> every data-directory file has written == durable; at the creation of data file n+1 every other data file is fully durable. strace cases: the same kind of workload runs in a child under `strace -f -y -e trace=write,fsync,fdatasync`; per data file the bytes written and the number of successful fsync calls seen by the kernel must equal the hook log (so the checker does not merely check its own hooks). Non-trivial: case with >=1 rotation, >=1 Sync batch or explicit Sync, and >=40 rule evaluations; distinct = hash of (config, op list)"
 }
 func (c13) Assumptions() []string {
 	return []string{"a completed fsync (FileIO) or msync/Flush (MMap) event makes all bytes written to that file before the event durable",
@@ -45,6 +45,15 @@ func (c13) Cases(tier string, seed uint64) []core.Case {
 			DataFileSize: []int64{4 << 10, 40 << 10, 64 << 10, 100000}[r.Intn(4)], Sync: m.S, BytesPerSync: m.B}
 		out = append(out, core.Case{Index: i, ID: fmt.Sprintf("c13-%05d", i), Seed: r.U64(), Data: seqCase{Cfg: cfg, NOps: r.Range(40, 200), NKeys: r.Range(3, 9)}})
 	}
+	// cross-check of the instrumentation against strace (standard I/O)
+	nt := 3
+	if tier == "thorough" {
+		nt = 18
+	}
+	for i := 0; i < nt; i++ {
+		m := modes[i%len(modes)]
+		out = append(out, core.Case{Index: len(out), ID: fmt.Sprintf("c13-strace-%02d", i), Seed: r.U64(), Data: seqCase{Cfg: core.Config{Sync: m.S, BytesPerSync: m.B}, NOps: -1}})
+	}
 	return out
 }
 
@@ -58,6 +67,9 @@ type c13Write struct {
 
 func (c13) Run(c core.Case, w *core.Worker) core.Result {
 	sc := c.Data.(seqCase)
+	if sc.NOps < 0 {
+		return runStraceCase(c, w, int(sc.Cfg.Sync), int(sc.Cfg.BytesPerSync))
+	}
 	res := core.Result{}
 	dir := w.Dir("db")
 	io := mon.NewIOLog()
